@@ -72,6 +72,8 @@ def shapeOf (lone : Bool) (ps : List PeerSpec) (fault : String) : String :=
   if lone then "lone-liar-cfheaders"
   else if liveness && checkptOnlyLiar ps then "cfcheckpt-only-liar-stall"
   else if liveness && emptyHeadersPeer ps then "sync-peer-empty-headers-stall"
+  else if earlyReturnShape ps && fault != "offchain-best" && fault != "offchain-block-tip" then
+    "self-consistent-cfheaders-liar-not-block-checked"
   else fault
 
 def runC04 (c : CaseIn) : Array String := Id.run do
